@@ -589,8 +589,14 @@ def run(tier, seed, jobs=None):
             'before/after, authorizer callback a, VM step s for remove, document corruption position p); exactly one '
             'fault per run; oracle: raised, exact dump unchanged, not in transaction, retry equals fault-free result. '
             'distinct = distinct (fault kind, exception type, injection site class).')
+    # seams that are not reached decide nothing: say so loudly (a refactoring of how wn opens its connection or
+    # reports progress can disconnect them without any check failing)
+    dead = sorted({c for v in counts.values() for c in ('cb', 'st', 'au') if v[c] == 0})
+    if dead:
+        print(f'NOTE property={PROP}: no injection point of kind {dead} was reached in some operation - the '
+              f'fault seam (wn._db.sqlite3 proxy / progress handler) is not connected; those faults are NOT covered')
     return runner.run_space(PROP, tier, seed, cases, dispatch, level='fault_enumeration', rule=rule, jobs=jobs,
-                            chunk=1, recheck=dispatch, extra={'injection_points': counts},
+                            chunk=1, recheck=dispatch, extra={'injection_points': counts, 'seams_not_reached': dead},
                             assumptions=['SQLite rollback semantics trusted', 'single fault per run (deviation bound 1)'])
 
 
